@@ -1439,6 +1439,9 @@ class Simulation:
 
         """
 
+        # Keep the residual of the misfit, to restore it afterwards.
+        residual = self.data.residual.data.copy()
+
         # Replace residual by provided vector
         # (division by weight is undone in gradient).
         with np.errstate(invalid='ignore'):  # (For division by cplx-NaN.)
@@ -1450,8 +1453,18 @@ class Simulation:
             if hasattr(self, name):
                 delattr(self, name)
 
-        # Return gradient from weighted residual `vector`.
-        return self.gradient
+        # Get gradient from weighted residual `vector`.
+        jtvec = self.gradient
+
+        # Restore the residual and reset the gradient again, so that the
+        # result for `vector` is not taken for the gradient of the misfit.
+        self.data.residual[...] = residual
+        self._gradient = None
+        for name in ['_dict_bfield', '_dict_bfield_info']:
+            if hasattr(self, name):
+                delattr(self, name)
+
+        return jtvec
 
     # UTILS
     @property
